@@ -356,8 +356,12 @@ class PyvalColorizer:
             # different from its constant's name and because its documentation
             # is not relevant to annotations.
             self._output(str(pyval), self.CONST_TAG, state, link=True)
-        elif pyvaltype is int or pyvaltype is float or pyvaltype is complex:
+        elif pyvaltype is int:
             self._output(str(pyval), self.NUMBER_TAG, state)
+        elif pyvaltype is float or pyvaltype is complex:
+            # 'inf' is not a number literal: an overflowing literal like 1e400 is
+            # presented as 1e309 (same thing as ast.unparse() does).
+            self._output(str(pyval).replace('inf', '1e309'), self.NUMBER_TAG, state)
         elif pyvaltype is str:
             self._colorize_str(pyval, state, '', escape_fcn=_str_escape)
         elif pyvaltype is bytes:
